@@ -316,6 +316,15 @@ class DV(object):
         return DV(tags, kind, sign, sel)
 
 
+class DataDependentInt(AnalysisError):
+    """A data dependent index was needed as a concrete integer (slice bound, loop count): the run cannot go on, but what the
+    integer depends on is known - a rule about data dependence can still judge that."""
+
+    def __init__(self, tags, msg):
+        AnalysisError.__init__(self, '%s (depends on %s)' % (msg, sorted(map(str, tags))[:4]))
+        self.tags = frozenset(tags)
+
+
 class IdxAny(object):
     """An index whose value depends on data: row unknown (any of 0..nrows-1), tags = what it depends on."""
     __slots__ = ('tags', 'rng', 'col')
@@ -350,7 +359,10 @@ class IdxAny(object):
         return join_values(vals, self.tags)
 
     def __index__(self):
-        raise AnalysisError('data dependent index used as a concrete integer')
+        raise DataDependentInt(self.tags, 'data dependent index used as a concrete integer')
+
+    def int_(self, interp):
+        raise DataDependentInt(self.tags, 'int() of a data dependent index [at %s]' % interp.where())
 
     @staticmethod
     def choice_(cond, a, b):
